@@ -511,6 +511,7 @@ func (g *Gen) didTx() Op {
 			}
 		} else if r.Chance(30) {
 			op.Eth = true
+			op.EthMixed = r.Chance(50) // the EIP-55 spelling of the account id
 		}
 		return op
 	case 4, 5:
